@@ -449,6 +449,7 @@ class SyncInterpreter(BaseInterpreter[TContext, TEvent]):
 
                 self._process_event(current_event)
                 self._process_transient_transitions()
+                self._fail_if_unhandled(current_event)
         finally:
             self._is_processing = False
             self._chain_depth = 0
@@ -1557,11 +1558,15 @@ class SyncInterpreter(BaseInterpreter[TContext, TEvent]):
             # 🚨 Unhandled service failures must be observable, not just
             #    logged. See BaseInterpreter._fail.
             handled = self._has_error_handler(invocation)
+            if not handled:
+                # 🏷️ The drain loop fails the machine once it has processed
+                #    this event (see `BaseInterpreter._fail_if_unhandled`);
+                #    failing right here, in the middle of state entry, showed
+                #    subscribers a half-built configuration.
+                error_event.unhandled_failure = e
             self.send(error_event)
             for plugin in self._plugins:
                 plugin.on_service_error(self, invocation, e)
-            if not handled:
-                self._fail(e)
 
     # -------------------------------------------------------------------------
     # 🛠️ Helper & Utility Methods (Private)
